@@ -9,7 +9,8 @@ def run(tier, seed, repo, focus=None):
                  "HDDDM/CDBD (detect_batch 2, 3), KdqTreeBatch, NNDVI on batch sequences vs the same sequences with the rows "
                  "of every batch (and the reference) permuted, same seed schedule: measured divergence equal; decisions "
                  "equal where the threshold is position-free (detect_batch=3, KdqTreeBatch, NNDVI); NNPS distance of "
-                 "permuted samples incl. lattice-valued data with ties; non-trivial = a drift occurs",
+                 "permuted samples incl. lattice-valued data with ties; single large batches (9000 / 17000 rows, more in the thorough "
+                 "tier) sorted vs shuffled for the kdq-tree partitioner, KdqTreeBatch and HDDDM; non-trivial = a drift occurs",
                  {"seeds": 3 if quick else 10})
     known = load_known()
     scns = []
@@ -29,4 +30,8 @@ def run(tier, seed, repo, focus=None):
         for (n1, n2) in ((12, 12), (15, 7), (6, 14)):
             scns.append({"seed": seed + s, "n1": n1, "n2": n2, "k": 3, "lattice": bool(s % 2)})
     drivers.run_scenarios(res, "nnps_order", scns, known)
+    # large batches (above typical block / chunk sizes: positional chunking must not leak order either)
+    scns = [{"det": name, "seed": seed, "rows": rows} for name in ("KDQTreePartitioner", "KdqTreeBatch", "HDDDM")
+            for rows in ((9000, 17000) if quick else (5000, 9000, 17000, 33000, 70000))]
+    drivers.run_scenarios(res, "row_order_large", scns, known)
     return res.finish()
